@@ -579,11 +579,14 @@ fn fast_publisher(r: &mut Rng, res: &mut CaseResult) {
 /// the low-water mark again and again. Every time it does, *every* blocked publisher has to
 /// get on - none of them may be left waiting for good while another one is served.
 fn competing_publishers(r: &mut Rng, res: &mut CaseResult) {
-    let nch = r.usize(2, 4);
-    let high = *r.pick(&[1usize << 20, 256 << 10]);
+    // (a mark of 0: every single message takes the buffer past it; 160 channels: more than
+    // one batch of poll events holds)
+    let many = r.chance(1, 4);
+    let nch = if many { 160 } else { r.usize(2, 4) };
+    let high = *r.pick(&[1usize << 20, 256 << 10, 0, 64 << 10]);
     let low = *r.pick(&[0usize, high / 2]);
     let bound = *r.pick(&[16usize, 16, 64]);
-    let body_len = *r.pick(&[256usize << 10, 1 << 20]);
+    let body_len = if many { 20_000 } else { *r.pick(&[256usize << 10, 1 << 20]) };
     let mut reflex = Reflex::default();
     reflex.tune = (2047, 131072, 0);
     let (mock, h) = new_mock(reflex);
@@ -649,12 +652,13 @@ fn competing_publishers(r: &mut Rng, res: &mut CaseResult) {
     res.obs("competing_publishers_least_share_permille", if late.iter().sum::<u64>() > 0 { 1000 * late.iter().min().copied().unwrap_or(0) / late.iter().sum::<u64>() } else { 0 });
     // the transport took a lot of data in the last two seconds - the buffer went below the
     // low-water mark many times - and yet somebody did not get a single publish through
+    res.obs("competing_publishers_channels_without_progress", late.iter().filter(|n| **n == 0).count() as u64);
     if written_late > 40 * (high + body_len) && late.iter().any(|n| *n == 0) {
         res.violate(
             "blocked_publisher_never_resumed",
             format!(
-                "{} channels publishing {}-byte bodies, bound {}, high/low water {}/{}: in the last 2 s the transport took {} MiB, publishes accepted per channel in that time {:?} (since the start {:?})",
-                nch, body_len, bound, high, low, written_late >> 20, late, at_end
+                "{} channels publishing {}-byte bodies, bound {}, high/low water {}/{}: in the last 2 s the transport took {} MiB, {} channels got nothing through; publishes accepted per channel in that time {:?} (since the start {:?})",
+                nch, body_len, bound, high, low, written_late >> 20, late.iter().filter(|n| **n == 0).count(), &late[..late.len().min(12)], &at_end[..at_end.len().min(12)]
             ),
         );
     } else if written_late <= 40 * (high + body_len) {
@@ -669,7 +673,7 @@ fn competing_publishers(r: &mut Rng, res: &mut CaseResult) {
     let _ = tc.join(W * 3);
     let _ = run::take_panics();
     res.sig = crate::rng::fnv_str(&format!("competing{}{}{}{}{}", nch, high, low, bound, body_len));
-    res.sample = Some(json!({"scenario": "tight-loop publishers on separate channels against a slow transport", "channels": nch, "high_water": high, "low_water": low, "bound": bound, "body": body_len, "accepted_per_channel": at_end}));
+    res.sample = Some(json!({"scenario": "tight-loop publishers on separate channels against a slow transport", "channels": nch, "high_water": high, "low_water": low, "bound": bound, "body": body_len, "accepted_per_channel": &at_end[..at_end.len().min(12)]}));
 }
 
 /// `Connection::close` while tight-loop publishers keep going against a transport that
@@ -678,7 +682,8 @@ fn competing_publishers(r: &mut Rng, res: &mut CaseResult) {
 /// the close was called stays within what their queues hold, and the close completes once
 /// the transport takes data again.
 fn close_under_fire(r: &mut Rng, res: &mut CaseResult) {
-    let nch = r.usize(1, 3);
+    let crowd = r.chance(1, 3);
+    let nch = if crowd { 96 } else { r.usize(1, 3) };
     let high = *r.pick(&[1usize << 20, 64 << 10]);
     let bound = *r.pick(&[16usize, 64]);
     let body_len = *r.pick(&[1usize << 20, 100_000, 1000]);
@@ -704,7 +709,11 @@ fn close_under_fire(r: &mut Rng, res: &mut CaseResult) {
             }
         }
     }
-    h.with(|st| st.budget = 0);
+    // (a crowd of publishers against a transport that takes everything: the close then has
+    // nothing to wait for but the I/O thread itself)
+    if !crowd {
+        h.with(|st| st.budget = 0);
+    }
     let accepted = Arc::new(AtomicU64::new(0));
     let mut threads = Vec::new();
     for ch in chans {
@@ -724,7 +733,23 @@ fn close_under_fire(r: &mut Rng, res: &mut CaseResult) {
     // let them run into the back-pressure first
     std::thread::sleep(Duration::from_millis(300));
     let before_close = accepted.load(Ordering::Relaxed);
+    let t_close = Instant::now();
     let tc = run::spawn("close", move || conn.close());
+    if crowd {
+        // the broker answers CloseOk at once: the close is a matter of milliseconds
+        match tc.join(Duration::from_secs(8)) {
+            J::Done(_) => res.obs("crowded_close_ms", t_close.elapsed().as_millis() as u64),
+            _ => res.violate("close_hangs_under_fire", format!("{} tight-loop publishers on channels of their own, a transport that takes everything and a broker that answers at once: Connection::close had not returned after 8 s ({} publishes accepted meanwhile)", nch, accepted.load(Ordering::Relaxed) - before_close)),
+        }
+        for t in threads {
+            let _ = t.join(W * 3);
+        }
+        let _ = run::take_panics();
+        res.obs("closes_under_fire", 1);
+        res.sig = crate::rng::fnv_str(&format!("closecrowd{}{}{}{}", nch, high, bound, body_len));
+        res.sample = Some(json!({"scenario": "Connection::close while a crowd of tight-loop publishers keeps going", "channels": nch, "high_water": high, "bound": bound, "body": body_len}));
+        return;
+    }
     std::thread::sleep(Duration::from_millis(2500));
     let after = accepted.load(Ordering::Relaxed) - before_close;
     let after_bytes = after as usize * body_len;
